@@ -126,7 +126,7 @@ func probe(e *env.Env, acked []env.Doc, where string) bool {
 	}()
 	select {
 	case <-done:
-	case <-time.After(20 * time.Second):
+	case <-time.After(120 * time.Second):
 		report(where, "search did not return within 20s while the sealer was parked outside any lock")
 		return false
 	}
@@ -248,7 +248,7 @@ func gated(skip bool, rounds int, appendAtGates bool) int {
 						} else {
 							acked = append(acked, d)
 						}
-					case <-time.After(20 * time.Second):
+					case <-time.After(120 * time.Second):
 						report(where, "bulk during the hand-over did not return within 20s")
 						drainAll()
 						return gates
